@@ -674,6 +674,88 @@ def _pick_keyfmt(rel, bases, rng):
     return f, f
 
 
+# ---------------------------------------------------------------------------
+# targeted base problems
+
+def taylor_case(rng, hermitian, N=3):
+    """exact SymPy problem with two perturbative symbols whose Hamiltonian contains the mixed
+    monomials x*y and x**2*y: handed over as ONE SymPy matrix with `symbols=` it goes through the
+    Taylor-expansion path of the front end (_sympy_to_BlockSeries)"""
+    for _ in range(50):
+        case = gen.random_case(rng, hermitian=hermitian, fmt="sympy", N=N, max_blocks=2, max_size=2, max_params=2)
+        if case["nparam"] == 2:
+            break
+    else:
+        raise RuntimeError("no two-parameter case drawn")
+    n = len(case["sub"])
+    cplx = rng.random() < 0.5
+    for o in ((1, 1), (2, 1)):
+        M = gen.rand_matrix(rng, n, herm=hermitian, cplx=cplx, dyadic=False, density=1.0)
+        if gq.is_zero(M):
+            M[0][0] = G(1)
+        case["H"][gen.key(o)] = gq.enc(M)
+    return case
+
+
+def degenerate_numeric_case(rng, hermitian, N=3):
+    """exact-float (dense / sparse numpy) problem with a FULLY DIAGONALISED block (tuple form, or
+    the single-block default) that has a degenerate level of H_0 and an UNSORTED diagonal, the
+    degenerate members not necessarily adjacent, e.g. diag(0,1,0,2), diag(2,0,0), diag(1,-1,1,-1)"""
+    fmt = rng.choice(["dense", "sparse"])
+    nb = rng.choice([1, 1, 2])
+    if nb == 1:
+        levels = rng.choice([[0, 1, 2], [0, 1, 2], [-1, 1], [0, 2], [0, 1]])
+        size = rng.randint(3, 4)
+    else:
+        levels = rng.choice([[0, 2], [0, 1], [1, 2]])
+        size = 3
+    while True:
+        d = [rng.choice(levels) for _ in range(size)]
+        if len(set(d)) < len(d) and len(set(d)) > 1 and d != sorted(d) and any(x != 0 for x in d):
+            break
+    if nb == 1:
+        sub = [0] * size
+        E = d
+        fully = rng.choice([None, [0]])
+    else:
+        other = [x for x in (0, 1, 2) if x not in levels][0]
+        sizeB = rng.randint(1, 2)
+        a_label = rng.choice([0, 1])
+        sub = [a_label] * size + [1 - a_label] * sizeB
+        E = d + [other] * sizeB
+        order = list(range(len(sub)))
+        if rng.random() < 0.5:
+            rng.shuffle(order)
+            # keep the diagonal of the fully diagonalised block unsorted
+            dd = [E[i] for i in order if sub[i] == a_label]
+            if dd == sorted(dd):
+                order = list(range(len(sub)))
+        sub = [sub[i] for i in order]
+        E = [E[i] for i in order]
+        fully = rng.choice([[a_label], [a_label], [0, 1]])
+    n = len(sub)
+    nparam = rng.randint(1, 2)
+    cplx = rng.random() < 0.5
+    H = {gen.key((0,) * nparam): gq.enc(gen.diag_matrix([G(x) for x in E]))}
+    for o in gq.orders_upto(nparam, 2):
+        if sum(o) == 1 or (sum(o) == 2 and rng.random() < 0.2):
+            H[gen.key(o)] = gq.enc(gen.rand_matrix(rng, n, herm=hermitian, cplx=cplx, dyadic=True, density=1.0))
+    return dict(sub=sub, nparam=nparam, N=N, H=H, hermitian=hermitian, fully=fully, fmt=fmt)
+
+
+def sorting_perm(case):
+    """the basis permutation that sorts the diagonal of H_0 inside every block"""
+    E = _energies(case)
+    sub = case["sub"]
+    pos = {}
+    for b in set(sub):
+        idx = [i for i in range(len(sub)) if sub[i] == b]
+        srt = sorted(idx, key=lambda i: (E[i].re, E[i].im, i))
+        for i, j in zip(idx, srt):
+            pos[i] = j
+    return [pos[i] for i in range(len(sub))]
+
+
 def _worker(args):
     seed, rel, kw = args
     rng = random.Random(seed)
@@ -688,7 +770,14 @@ def _worker(args):
             if rel in ("merge", "permute"):
                 bkw["max_params"] = max(2, bkw.get("max_params", 2))
             fmt = rng.choice(fmts)
-            if rel == "direct_sum":
+            special = bkw.pop("special", None)
+            if special == "taylor":
+                bases = [taylor_case(rng, bkw["hermitian"], min(bkw.get("N", 3), 3))]
+                fmt = "sympy"
+            elif special == "degnum":
+                bases = [degenerate_numeric_case(rng, bkw["hermitian"], bkw.get("N", 3))]
+                fmt = bases[0]["fmt"]
+            elif rel == "direct_sum":
                 bkw["max_blocks"] = min(2, bkw.get("max_blocks", 3))
                 bkw["max_size"] = min(2, bkw.get("max_size", 3))
                 a = gen.random_case(rng, fmt=fmt, **bkw)
@@ -710,12 +799,24 @@ def _worker(args):
             P = draw_params(rel, bases, rng)
             if P is None:
                 continue
-            kf, kft = _pick_keyfmt(rel, bases, rng)
+            if special == "degnum" and rel == "basis_perm" and rng.random() < 0.5:
+                sp = sorting_perm(bases[0])
+                if sp != list(range(len(sp))):
+                    P = dict(pi=sp)
             tcase = transform(rel, bases, P)
-            if not keyfmt_applicable(tcase, kft):
-                kf = kft = "tuple"
+            if special == "taylor":
+                # base through the Taylor path; the transformed problem too whenever it can be written as an
+                # expression in all its symbols (a vanishing perturbation cannot), sometimes as a dict instead
+                kf = "expr"
+                kft = "expr" if keyfmt_applicable(tcase, "expr") and rng.random() < 0.75 else "tuple"
+                if not keyfmt_applicable(bases[0], "expr"):
+                    continue
+            else:
+                kf, kft = _pick_keyfmt(rel, bases, rng)
+                if not keyfmt_applicable(tcase, kft):
+                    kf = kft = "tuple"
             fails, info = check_relation(rel, bases, P, kf, kft)
-            return dict(rel=rel, bases=bases, params=P, keyfmt=kf, fails=fails, info=info, dt=time.time() - t, skipped=False)
+            return dict(rel=rel, bases=bases, params=P, keyfmt=kf if kf == kft else "%s->%s" % (kf, kft), fails=fails, info=info, dt=time.time() - t, skipped=False)
         return dict(rel=rel, bases=None, params=None, keyfmt=None, fails=[], info=dict(nontrivial=False, raised=False), dt=time.time() - t, skipped=True)
     except Exception:
         return dict(rel=rel, bases=None, params=None, keyfmt=None,
@@ -762,5 +863,7 @@ def sweep(ctx, relations, per_relation, kw, parallel=None):
     return dict(evaluations=evaluations, nontrivial=len(nontrivial),
                 rule="relations %s on random exact problems (hermitian=%s, blocks<=%s, block size<=%s, params<=%s): base and transformed problem run through block_diagonalize, all elements of H_tilde, U, U† compared exactly up to total order %s; non-trivial = distinct (relation, parameters, base) with dim>=2 and a non-zero output at total order>=2"
                 % (",".join(relations), kw.get("hermitian"), kw.get("max_blocks", 3), kw.get("max_size", 3), kw.get("max_params", 2), kw.get("N", 3))
-                + ("; inputs restricted to the class where kept matrix elements connect equal unperturbed energies" if kw.get("nh_class") else ""),
+                + ("; inputs restricted to the class where kept matrix elements connect equal unperturbed energies" if kw.get("nh_class") else "")
+                + ("; base problems = SymPy matrix expression with symbols= (Taylor path) in two symbols with mixed monomials x*y, x**2*y" if kw.get("special") == "taylor" else "")
+                + ("; base problems = exact-float dense/sparse with a fully diagonalised block (tuple form or single-block default) having a degenerate H_0 level and an unsorted diagonal" if kw.get("special") == "degnum" else ""),
                 samples=samples, failures=failures, distribution=dist)
